@@ -91,6 +91,61 @@ theorem tumble_run (c : TumbleCfg) (idx : Nat) (hc : c.idx = idx) (hlen : 0 < c.
       rw [hmin]
       exact ⟨hok, rfl, trivial⟩
 
+/-- tumble creates no late data and keeps watermarks increasing: event times and watermarks are untouched -/
+theorem tumble_timely (c : TumbleCfg) (idx : Nat) (hc : c.idx = idx) (hlen : 0 < c.len) (hoff : I64 c.off)
+    (hne : c.off ≠ minI64) (ms : List Msg) (ht : Timed idx ms) (w : Option Int) (h : Timely w ms) :
+    Timely w (tumbleMsgs c ms).1 :=
+  tumbleOk_timely w (tumble_stream c idx hc hlen hoff hne ms ht).2 h
+
+/-- … also with respect to the time field the output schema declares (`window_end`): a record whose time is above
+    a watermark has its `window_end` above that watermark -/
+theorem tumble_window_end_not_late (t len off W : Int) (hlen : 0 < len) (hoff : I64 off) (hne : off ≠ minI64)
+    (h : W < t) : W < windowEnd t len off := by
+  have := (window_contains t len off hlen hoff hne).2
+  omega
+
+/-- the declared `NoRetractions` (copied from the source) is honoured -/
+theorem tumble_no_retractions (c : TumbleCfg) (idx : Nat) (hc : c.idx = idx) (hlen : 0 < c.len) (hoff : I64 c.off)
+    (hne : c.off ≠ minI64) (ms : List Msg) (ht : Timed idx ms) (h : ∀ r ∈ recs ms, r.retr = false) :
+    ∀ r ∈ recs (tumbleMsgs c ms).1, r.retr = false :=
+  tumbleOk_no_retractions (tumble_stream c idx hc hlen hoff hne ms ht).2 h
+
+/-- a record without a value at the time field index (Go: index out of range): the documented image of everything
+    before it has been emitted, then the run panics -/
+theorem tumble_panic_prefix (c : TumbleCfg) (idx : Nat) (hc : c.idx = idx) (hlen : 0 < c.len) (hoff : I64 c.off)
+    (hne : c.off ≠ minI64) (pre post : List Msg) (r : Rec) (ht : Timed idx pre) (hr : r.vals[idx]? = none) :
+    (tumbleMsgs c (pre ++ .data r :: post)).2 = .panic ∧
+    TumbleOk idx c.len c.off pre (tumbleMsgs c (pre ++ .data r :: post)).1 :=
+  tumbleMsgs_panic c idx hc hlen (by unfold I64 at hoff; omega) hoff.2 pre post r ht hr
+
+/-- `OutputSchema` and `Materialize` look the time field up with two separate loops; when `OutputSchema` accepts
+    `time_field => DESCRIPTOR(name)`, the index `Materialize` computes is that of a `Time` field with that name -/
+theorem tumble_schema_index (name : String) (src : Schema) (out : Schema)
+    (h : tumbleSchema (some name) src = some out) :
+    src.fields[lookupIdx name src.fields 0]? = some (name, .time) := by
+  unfold tumbleSchema at h
+  simp only at h
+  split at h
+  · next hf =>
+    obtain ⟨j, h1, h2⟩ := lookupIdx_of_find name src.fields 0 hf
+    rw [h1]; simpa using h2
+  · simp at h
+
+/-- the declared schema: the source's fields, then `window_start`, `window_end` (both `Time`); the time field is
+    `window_end`; `NoRetractions` as the source's -/
+theorem tumble_schema_shape (tf : Option String) (src out : Schema) (h : tumbleSchema tf src = some out) :
+    out.fields = src.fields ++ [("window_start_0", .time), ("window_end_0", .time)] ∧
+    out.timeField = src.fields.length + 1 ∧ out.noRetr = src.noRetr := by
+  unfold tumbleSchema at h
+  simp only at h
+  split at h
+  · split at h
+    · simp at h; subst h; exact ⟨rfl, rfl, rfl⟩
+    · simp at h
+  · split at h
+    · simp at h
+    · simp at h; subst h; exact ⟨rfl, rfl, rfl⟩
+
 /-- outside the statement: a non-positive window length makes `Truncate` the identity, so `time < window_end` fails -/
 theorem tumble_nonpositive_length (t len off : Int) (hlen : len ≤ 0) (hoff : I64 off) (hne : off ≠ minI64) :
     windowStart t len off = t ∧ windowEnd t len off ≤ t := by
@@ -139,6 +194,9 @@ theorem range_run (s e : Int) (budget : Option Nat) :
   cases budget <;> simp [List.map_take]
 
 /-! ## poll -/
+
+/-- a clock for the witnesses: 100, 101, 102, … -/
+def wclock (k : Nat) : Int := 100 + k
 
 /-- **the rounds.** Over any clock that never reads the zero time and any list of snapshots, the loop emits exactly
     `rounds`: round `k` = undo of snapshot `k−1` (nothing in round 0), snapshot `k` with the reading prepended,
@@ -195,6 +253,28 @@ theorem poll_valid (clock : Nat → Int) (hz : ∀ j, clock j ≠ zeroUnix) (sna
   rw [poll_rounds clock hz]
   exact valid_rounds clock snaps hv snaps.length
 
+/-- why `poll_timely` needs sources without watermarks: poll hands the source its own `metaSend`, so a source
+    watermark (here 500, above the clock) is forwarded and poll's next watermark (100) goes backwards -/
+theorem poll_forwards_source_watermarks :
+    (pollFrom wclock 0 {} (okRounds [[.wm 500]])).1 = [.wm 500, .wm 100] ∧
+    ¬ Timely none (pollFrom wclock 0 {} (okRounds [[.wm 500]])).1 := by
+  have heq : (pollFrom wclock 0 {} (okRounds [[.wm 500]])).1 = [.wm 500, .wm 100] := rfl
+  refine ⟨heq, ?_⟩
+  rw [heq]
+  intro h
+  have := h.2.1 500 rfl
+  omega
+
+/-- range declares `NoRetractions` and no time field, and indeed emits neither retractions, event times nor watermarks -/
+theorem range_plain (s e : Int) (budget : Option Nat) :
+    ∀ m ∈ (rangeRun (.int s) (.int e) budget).1, ∃ i, m = .data { vals := [.int i], retr := false, et := none } := by
+  intro m hm
+  have h := (range_run s e budget).1
+  rw [h] at hm
+  cases budget with
+  | none => simp only [List.mem_map] at hm; obtain ⟨i, _, rfl⟩ := hm; exact ⟨i, rfl⟩
+  | some b => simp only [List.mem_map] at hm; obtain ⟨i, _, rfl⟩ := hm; exact ⟨i, rfl⟩
+
 /-- a failing consumer: poll's output is the prefix that got through -/
 theorem poll_run (clock : Nat → Int) (hz : ∀ j, clock j ≠ zeroUnix) (snaps : List (List Msg)) (b : Nat) :
     (pollRun clock (okRounds snaps) (some b)).1 =
@@ -204,8 +284,6 @@ theorem poll_run (clock : Nat → Int) (hz : ∀ j, clock j ≠ zeroUnix) (snaps
 
 /-! ## the code as shipped (before the two `fix:` commits) violates the poll part -/
 
-/-- a clock for the witnesses: 100, 101, 102, … -/
-def wclock (k : Nat) : Int := 100 + k
 def rowA : Msg := .data { vals := [.int 7], retr := false, et := none }
 def rowA' : Msg := .data { vals := [.int 7], retr := true, et := none }
 
